@@ -728,7 +728,6 @@ func (e *Env) c05Reconnect(rule string) {
 
 func (e *Env) c05Pairing() {
 	r := e.R
-	a := e.anchors()
 	sp := e.spine()
 	if sp == nil {
 		return
@@ -747,32 +746,7 @@ func (e *Env) c05Pairing() {
 	if len(sp.mkTemp) == 0 {
 		ob.Unknown("-", "no creation of the temp dir found")
 	}
-	// FIFO removal in the done arm
-	ob2 := r.Ob("R7", "(*Process).Run:fifo-removed", "after a task is done the FIFO of each of its streaming outputs is removed (for every output, when the FIFO exists)")
-	gp := e.XG(a.procRun)
-	if gp == nil {
-		return
-	}
-	n0 := 0
-	for _, n := range gp.Select(isRemove) {
-		s := e.argSym(n, 0)
-		if !isCallSym(s, fnFifoPath) || n.Ctx != gp.Root {
-			continue
-		}
-		n0++
-		sc := core.Scenario{FieldLoad: e.assumeStream(true), CallResult: func(m *core.Node) (core.AV, bool) {
-			if isStat(m) {
-				return core.TupleAV(core.Top, core.NilAV()), true
-			}
-			return core.Top, false
-		}}
-		if e.forAllOutputs(ob2, gp, n, func(m *core.Node) bool { return m == n }, sc, "FIFO removal") {
-			ob2.OK(gp.Where(n), "os.Remove("+s.Template()+") for every streaming output whose FIFO exists")
-		}
-	}
-	if n0 == 0 {
-		ob2.Fail(core.FuncName(a.procRun), "the FIFO of a streaming output is never removed in Process.Run")
-	}
+	e.fifoRemovedRule("R7")
 }
 
 // forwardAllOutputs: Process.Run forwards every output of a finished task (and every streaming output of a
